@@ -13,7 +13,8 @@ SPEC = dict(
                 "to lift from values to maps, so every nesting is covered (instantiated for keyed(cp) and keyed(keyed(cp))); "
                 "PairBimorphism satisfies both laws given reflexivity+idempotence (instantiated for sets) but is not bottom-strict, and "
                 "KeyedBimorphism(PairBimorphism) is refuted on a concrete map with a bottom value (F23, reproduced on the real code); "
-                "GHT DeepJoin satisfies both laws both as sets of rows and under the crate's structural == on tries, the GHT cartesian "
+                "GHT DeepJoin satisfies both laws both as sets of rows and under the crate's == on tries (which, since the F7/F22 fixes of C08, "
+                "compares the rows of well-formed tries; hypothesis: rows have the key columns), the GHT cartesian "
                 "product as sets of rows and (inner-node output) under ==. Tie: the same law lines (bounded-exhaustive small values + "
                 "seeded random + malformed) are evaluated on the real types with Merge::merge_owned and the crate's == exactly like "
                 "check_lattice_bimorphism, both outputs are printed canonically (maps with their bottom entries, tries as structural "
